@@ -245,7 +245,13 @@ def check(P, tier, seed):
                     c = json.load(f)
                 cases.extend(c if isinstance(c, list) else [c])
     n_corpus = len(cases)
-    cases.extend(P.gen_cases(seed, eff_tier))
+    if eff_tier == 'thorough' and tier == 'quick':
+        # escalation: a modelled function changed -> three quick budgets with different seeds
+        eff_tier = 'quick-escalated'
+        for k in range(3):
+            cases.extend(P.gen_cases(seed + 1000 * k, 'quick'))
+    else:
+        cases.extend(P.gen_cases(seed, eff_tier))
     obs = run_impl(P, cases)
 
     violations = []      # (case, obs, failure)
